@@ -352,6 +352,38 @@ def pub_fields(struct_text):
     return t[:ob + 1] + pre + sep.join(newp) + post + t[cl:]
 
 
+
+def extract_requires(spec_lines):
+    """Text of the requires clause (without the keyword), or '' if there is none."""
+    txt = '\n'.join(l for l in spec_lines if not l.strip().startswith('//'))
+    m = re.search(r'\brequires\b', txt)
+    if not m:
+        return ''
+    rest = txt[m.end():]
+    m2 = re.search(r'(?m)^\s*(ensures|decreases|recommends|no_unwind|opens_invariants)\b', rest)
+    if m2:
+        rest = rest[:m2.start()]
+    return rest.strip()
+
+
+def fix_old(req):
+    req = re.sub(r'\bold\(\s*(\w+)\s*\)', r'\1', req)
+    return req
+
+
+def make_probe_head(head, name):
+    """proof fn signature with the same generics and parameters (references to mutable state become values)."""
+    h = head
+    h = re.sub(r'->\s*\(\s*\w+\s*:[^{]*?\)\s*(?=(where\b|$))', '', h, flags=re.S)
+    h = re.sub(r'(?<!\*)\b(pub|unsafe|const|extern\s+"[^"]*")\s+', '', h)
+    h = re.sub(r'\bfn\s+%s\b' % re.escape(name), 'proof fn vacuity_probe__' + name, h, count=1)
+    h = h.replace('&mut self', '&self').replace("&'a mut ", "&'a ").replace('&mut ', '&')
+    h = re.sub(r'\bmut\s+self\b', 'self', h)
+    if 'impl ' in h or 'dyn ' in h:
+        return None
+    return h.strip()
+
+
 CFG_TRUE = ('feature = "instructions"', 'feature = "step_trait"', 'target_arch = "x86_64"',
             'target_pointer_width = "64"', 'feature = "abi_x86_interrupt"')
 
@@ -406,7 +438,7 @@ class Weaver:
         k = it['kind']
         origin_spec = ('spec', it['spec'], it['line'])
         if k == 'verbatim':
-            if self.mode in it['mode']:
+            if ('A' if self.mode == 'P' else self.mode) in it['mode']:
                 self.emit('\n'.join(it['text']), ('spec', it['spec'], it['line'] + 1))
         elif k == 'struct':
             s = self.src(it['file'])
@@ -505,7 +537,7 @@ class Weaver:
                                consts=[c[0] for c in consts]))
 
     def weave_fn(self, it):
-        if it['only'] and it['only'] != self.mode:
+        if it['only'] and it['only'] != ('A' if self.mode == 'P' else self.mode):
             return
         s = self.src(it['file'])
         r = s.find_fn(it['header'], it['name'])
@@ -545,9 +577,9 @@ class Weaver:
         if it['rename']:
             head = re.sub(r'\bfn\s+%s\b' % re.escape(it['name']), 'fn ' + it['rename'], head, count=1)
             log.append('rename %s -> %s' % (it['name'], it['rename']))
-        spec_lines = it['A'] if (self.mode == 'A' or it['B'] is None) else it['B']
-        sec_used = 'A' if (self.mode == 'A' or it['B'] is None) else 'B'
-        proof = list(it['proof']) + (it['proofA'] if self.mode == 'A' else it['proofB'])
+        spec_lines = it['A'] if (self.mode in ('A', 'P') or it['B'] is None) else it['B']
+        sec_used = 'A' if (self.mode in ('A', 'P') or it['B'] is None) else 'B'
+        proof = list(it['proof']) + (it['proofA'] if self.mode in ('A', 'P') else it['proofB'])
         if it.get('bodyless'):
             body = '{ unimplemented!() }'
             head = '#[verifier::external_body]\n    ' + head
@@ -577,11 +609,29 @@ class Weaver:
             self.emit_fn_block(header, member, origin, is_trait)
         else:
             self.out.append(['', [(member, origin)], origin])
-        self.funcs.append(dict(kind='fn', name=(it['rename'] or it['name']), header=header, file=it['file'],
+        probe_idx = None
+        if self.mode == 'P' and not is_trait and not it.get('bodyless'):
+            req = extract_requires(spec_lines)
+            if req:
+                ph = make_probe_head(head, it['rename'] or it['name'])
+                if ph:
+                    ptxt = '    ' + ph + '\n        requires ' + fix_old(req) + '\n    { assert(false); }\n'
+                    porigin = dict(kind='fn', file=it['file'], first=r['line_first'], last=r['line_last'], spec=it['spec'],
+                                   spec_line=it['seclines'].get(sec_used, it['line']), n_head=1 + ph.count('\n'), n_spec=1 + req.count('\n'),
+                                   n_proof=0, fn_idx=len(self.funcs) + 1)
+                    probe_idx = len(self.funcs) + 1
+                    if header:
+                        self.out.append([header, [(ptxt, porigin)], porigin])
+                    else:
+                        self.out.append(['', [(ptxt, porigin)], porigin])
+        self.funcs.append(dict(kind='fn', name=(it['rename'] or it['name']), header=header, file=it['file'], probe_idx=probe_idx,
                                lines=[r['line_first'], r['line_last']], sha256=r['sha256'],
                                obligations=it['obligations'], rewrites=log, mode=self.mode,
                                spec=os.path.basename(it['spec']), spec_section=sec_used,
                                n_clauses=sum(1 for l in spec_lines if l.strip() and not l.strip().startswith('//'))))
+        if probe_idx is not None:
+            self.funcs.append(dict(kind='probe', name='vacuity_probe__' + (it['rename'] or it['name']), header=header, file=it['file'],
+                                   lines=[r['line_first'], r['line_last']], sha256='', obligations=[], probe_of=probe_idx - 1))
 
     def render(self):
         """Return (text, linemap) where linemap[i] describes woven line i+1."""
